@@ -100,11 +100,13 @@ class Gen(object):
             if self.chance(0.3):
                 r['allowed'] = [self.chance(0.5)]
         elif kind == 'list':
-            r['type'] = self.pick(['list', 'list', ['list', 'string'], 'container']) if typed or depth > 0 else 'list'
-            self.list_rules(r, depth)
+            r['type'] = 'list'
+            self.list_rules(r, depth, validation_only=validation_only)
+            if 'schema' not in r and 'items' not in r and self.chance(0.3):
+                r['type'] = self.pick([['list', 'string'], 'container', ['list', 'dict']])
         elif kind == 'dict':
             r['type'] = 'dict'
-            self.dict_rules(r, depth, siblings)
+            self.dict_rules(r, depth, siblings, validation_only=validation_only)
         elif kind == 'multi':
             r['type'] = self.some(SCALAR_TYPES + ['list'], 1, 3)
             if self.chance(0.5):
@@ -118,7 +120,7 @@ class Gen(object):
             if self.chance(0.4):
                 self.str_rules(r)
             if self.chance(0.25):
-                self.list_rules(r, min(depth, 1), typed=False)
+                self.list_rules(r, 0)
         # rules that apply to every kind
         if self.chance(0.25):
             r['nullable'] = self.chance(0.7)
@@ -182,12 +184,13 @@ class Gen(object):
         except TypeError:
             return list(xs)
 
-    def list_rules(self, r, depth, typed=True):
+    def list_rules(self, r, depth, validation_only=False):
         x = self.r.random()
         if depth > 0 and x < 0.45:
-            r['schema'] = self.rules(depth - 1, validation_only=False, no_rename=True)
+            r['schema'] = self.rules(depth - 1, validation_only=validation_only, no_rename=True)
         elif depth > 0 and x < 0.7:
-            r['items'] = [self.rules(depth - 1, no_rename=True) for _ in range(self.r.randint(0, 3))]
+            r['items'] = [self.rules(depth - 1, validation_only=validation_only, no_rename=True)
+                          for _ in range(self.r.randint(0, 3))]
         if self.chance(0.25):
             r['minlength'] = self.r.randint(0, 3)
         if self.chance(0.25):
@@ -199,22 +202,22 @@ class Gen(object):
         if self.chance(0.2):
             r['contains'] = self.pick([1, 'a', [1, 2], ['a'], 2.0, (1, 'a')])
 
-    def dict_rules(self, r, depth, siblings):
+    def dict_rules(self, r, depth, siblings, validation_only=False):
         x = self.r.random()
         if depth > 0 and x < 0.55:
             names = self.some(SUBKEYS[:6], 1, 3)
-            r['schema'] = {f: self.rules(depth - 1, siblings=names) for f in names}
+            r['schema'] = {f: self.rules(depth - 1, siblings=names, validation_only=validation_only) for f in names}
             if self.chance(0.3):
-                r['allow_unknown'] = self.allow_unknown(depth - 1)
+                r['allow_unknown'] = self.allow_unknown(depth - 1, validation_only)
             if self.chance(0.2):
                 r['require_all'] = self.chance(0.6)
-            if self.chance(self.p_norm * 0.5):
+            if not validation_only and self.chance(self.p_norm * 0.5):
                 r['purge_unknown'] = self.chance(0.7)
         elif depth > 0 and x < 0.8:
             if self.chance(0.6):
-                r['valuesrules'] = self.rules(depth - 1, no_rename=True)
+                r['valuesrules'] = self.rules(depth - 1, validation_only=validation_only, no_rename=True)
             if self.chance(0.5):
-                r['keysrules'] = self.keys_rules()
+                r['keysrules'] = self.keys_rules(validation_only)
         if self.chance(0.2):
             r['minlength'] = self.r.randint(0, 2)
         if self.chance(0.2):
@@ -224,7 +227,7 @@ class Gen(object):
         if self.chance(0.1):
             r['contains'] = self.pick(['a', ['a', 'b'], 0])
 
-    def keys_rules(self):
+    def keys_rules(self, validation_only=False):
         r = {}
         if self.chance(0.7):
             r['type'] = self.pick(['string', 'integer', ['string', 'integer']])
@@ -236,13 +239,13 @@ class Gen(object):
             r['minlength'] = self.r.randint(0, 2)
         if self.chance(0.2):
             r['forbidden'] = self.some(SUBKEYS, 1, 2)
-        if self.chance(self.p_norm):
+        if not validation_only and self.chance(self.p_norm):
             r['coerce'] = self.coercer(for_keys=True)
         if self.chance(0.08):
             self.logical(r, 0, ())
         return r
 
-    def allow_unknown(self, depth):
+    def allow_unknown(self, depth, validation_only=False):
         x = self.r.random()
         if x < 0.35:
             return True
@@ -250,7 +253,7 @@ class Gen(object):
             return False
         if x < 0.55:
             return {}
-        return self.rules(max(depth, 0), no_rename=False)
+        return self.rules(max(depth, 0), validation_only=validation_only, no_rename=False)
 
     def dependencies(self, siblings):
         names = [str(s) if not isinstance(s, str) else s for s in siblings]
